@@ -36,16 +36,17 @@ type Op struct {
 	Slot   int    `json:"slot"`   // subscriber slot
 	Signal string `json:"signal"` // boom | delay
 	N      int    `json:"n,omitempty"`
+	Obj    int    `json:"obj,omitempty"` // emit | burst: 0 the service's main Bomb object, 1 a second Bomb object of the same service
 }
 
 // Case: a placement per subscriber slot and a script.
 type Case struct {
-	Places []string `json:"places"` // A1 | A2 | B | C1 | C2 | raw
+	Places []string `json:"places"` // A1 | A2 | B | C1 | C2 | raw (main object); A3 | B3: a proxy of the second object through session A / B
 	Ops    []Op     `json:"ops"`
 }
 
 func placements() []string {
-	p := []string{"A1", "A1", "A2", "B", "raw"}
+	p := []string{"A1", "A1", "A2", "B", "raw", "A3", "B3"}
 	if !vt.Known("C13:two-clients-one-connection") {
 		p = append(p, "C1", "C2")
 	} else {
@@ -70,6 +71,9 @@ func genCase(t *rapid.T) Case {
 		}
 		if op.Kind == "burst" {
 			op.N = rapid.IntRange(2, 50).Draw(t, "burst")
+		}
+		if op.Kind == "emit" || op.Kind == "burst" {
+			op.Obj = rapid.SampledFrom([]int{0, 0, 1}).Draw(t, "emitter")
 		}
 		c.Ops = append(c.Ops, op)
 	}
@@ -110,6 +114,7 @@ func (s *subscription) got() []int32 {
 }
 
 type slot struct {
+	obj   int // index of the object it listens to
 	place string
 	proxy space.BombProxy
 	raw   *netkit.RawClient
@@ -165,22 +170,36 @@ func checkCase(c Case) error {
 	if err != nil {
 		return vt.Violationf("C13:setup", "service: %v", err)
 	}
+	// a second Bomb object in the same service: same signal and property ids
+	bomb2, actor2 := probe.NewBomb("bomb2", env.Journal)
+	obj2, err := svc.Add(actor2)
+	if err != nil {
+		return vt.Violationf("C13:setup", "second object: %v", err)
+	}
+	bombs := []*probe.Bomb{bomb, bomb2}
 	cls := placeClass(c.Places)
 	// connections
 	var sessA, sessB bus.Session
 	var cache *bus.Cache
 	mkSession := func() (bus.Session, error) { return session.NewAuthSession(env.Addr, "u", "t") }
-	var a1, a2, b1, c1, c2 space.BombProxy
+	var a1, a2, a3, b1, b3, c1, c2 space.BombProxy
 	var rawc *netkit.RawClient
 	need := map[string]bool{}
 	for _, p := range c.Places {
 		need[p] = true
 	}
-	if need["A1"] || need["A2"] {
+	if need["A1"] || need["A2"] || need["A3"] {
 		if sessA, err = mkSession(); err != nil {
 			return vt.Violationf("C13:setup", "session: %v", err)
 		}
 		defer sessA.Terminate()
+		if need["A3"] {
+			p3, err := sessA.Proxy("Bomb", obj2)
+			if err != nil {
+				return vt.Violationf("C13:setup", "proxy of the second object: %v", err)
+			}
+			a3 = space.MakeBomb(sessA, p3)
+		}
 		p1, err1 := sessA.Proxy("Bomb", 1)
 		p2, err2 := sessA.Proxy("Bomb", 1)
 		if err1 != nil || err2 != nil {
@@ -188,11 +207,18 @@ func checkCase(c Case) error {
 		}
 		a1, a2 = space.MakeBomb(sessA, p1), space.MakeBomb(sessA, p2)
 	}
-	if need["B"] {
+	if need["B"] || need["B3"] {
 		if sessB, err = mkSession(); err != nil {
 			return vt.Violationf("C13:setup", "session: %v", err)
 		}
 		defer sessB.Terminate()
+		if need["B3"] {
+			p3, err := sessB.Proxy("Bomb", obj2)
+			if err != nil {
+				return vt.Violationf("C13:setup", "proxy of the second object: %v", err)
+			}
+			b3 = space.MakeBomb(sessB, p3)
+		}
 		p, err := sessB.Proxy("Bomb", 1)
 		if err != nil {
 			return vt.Violationf("C13:setup", "proxy: %v", err)
@@ -230,6 +256,10 @@ func checkCase(c Case) error {
 			s.proxy = a2
 		case "B":
 			s.proxy = b1
+		case "A3":
+			s.proxy, s.obj = a3, 1
+		case "B3":
+			s.proxy, s.obj = b3, 1
 		case "C1":
 			s.proxy = c1
 		case "C2":
@@ -398,16 +428,16 @@ func checkCase(c Case) error {
 				counter++
 				var err error
 				if op.Signal == "boom" {
-					err = bomb.Helper.SignalBoom(counter)
+					err = bombs[op.Obj%2].Helper.SignalBoom(counter)
 				} else {
-					err = bomb.Helper.UpdateDelay(counter)
+					err = bombs[op.Obj%2].Helper.UpdateDelay(counter)
 				}
 				if err != nil {
 					return vt.Violationf("C13:emit-error", "step %d: emitting %s(%d): %v", i, op.Signal, counter, err)
 				}
 				emits++
 				for _, sl := range slots {
-					if sub, ok := sl.subs[op.Signal]; ok {
+					if sub, ok := sl.subs[op.Signal]; ok && sl.obj == op.Obj%2 {
 						sub.expected = append(sub.expected, counter)
 					}
 				}
